@@ -61,7 +61,8 @@ def gen(rng: random.Random, tier):
         elif r < 0.60:
             steps.append(["pub", L, MARK, "@" + L, 0, 8])
         elif r < 0.72:
-            steps.append(["pub", L, rng.choice(types), 0, 0, rng.choice([0, 8, 100])])
+            # (some with a destination outside the valid range: refused, nothing else about the connection changes)
+            steps.append(["pub", L, rng.choice(types), rng.choice([0, 0, 0, 201, -1, 32767]), rng.choice([0, 0, 0, 6, -1]), rng.choice([0, 8, 100])])
         elif r < 0.76:
             steps.append(["ready", L, rng.randint(1, 1 << 20)])
         elif r < 0.79:
